@@ -2,7 +2,6 @@ package rules
 
 import (
 	"fmt"
-	"strings"
 	"go/types"
 
 	"golang.org/x/tools/go/ssa"
@@ -25,6 +24,51 @@ func c14(c *Ctx) {
 		c14core(c, f)
 	}
 	c14wrappers(c)
+	c14txMethods(c)
+}
+
+// c14txMethods (R6, round 5): the Commit and Rollback that transactOnConn calls through the `trans` interface are
+// database/sql's own. Every type of the package that can stand behind that interface (it has Commit and Rollback
+// methods) gets them by embedding *sql.Tx — the promoted (*sql.Tx).Commit / Rollback — and does not define its own:
+// a session type that grows a Commit of its own (rolling back "aborted" transactions, mapping sql.ErrTxDone to nil)
+// makes "commit iff the body returned nil" and "nil only when the commit succeeded" depend on that method instead
+// (seeds r5-C14-2, r5-C14-3).
+func c14txMethods(c *Ctx) {
+	rule := "C14.R6"
+	pk := c.P.Pkg("core/stores/sqlx")
+	if pk == nil || pk.Types == nil {
+		c.R.Undecided(rule, "core/stores/sqlx", "package loads", "not loaded")
+		return
+	}
+	n := 0
+	var bad []string
+	scope := pk.Types.Scope()
+	for _, name := range scope.Names() {
+		tn, ok := scope.Lookup(name).(*types.TypeName)
+		if !ok {
+			continue
+		}
+		if _, isIface := tn.Type().Underlying().(*types.Interface); isIface {
+			continue
+		}
+		for _, t := range []types.Type{tn.Type(), types.NewPointer(tn.Type())} {
+			ms := types.NewMethodSet(t)
+			cm, rb := ms.Lookup(pk.Types, "Commit"), ms.Lookup(pk.Types, "Rollback")
+			if cm == nil || rb == nil {
+				continue
+			}
+			n++
+			for _, sel := range []*types.Selection{cm, rb} {
+				fn := sel.Obj().(*types.Func)
+				if fn.Pkg() == nil || fn.Pkg().Path() != "database/sql" {
+					bad = append(bad, fmt.Sprintf("%s.%s is defined by %s, not promoted from *sql.Tx", typeString(t), fn.Name(), fn.Pkg().Path()))
+				}
+			}
+			break
+		}
+	}
+	sortStrings(bad)
+	c.R.Check(len(bad) == 0 && n >= 1, rule, "core/stores/sqlx#tx-methods", "every type of the package with Commit and Rollback methods has database/sql's (*sql.Tx).Commit / Rollback (promoted through embedding), not methods of its own", "-", fmt.Sprintf("%d types; %v", n, bad), bad, n)
 }
 
 func c14core(c *Ctx, f *ssa.Function) {
@@ -44,30 +88,11 @@ func c14core(c *Ctx, f *ssa.Function) {
 	}
 	isBegin := px.DynWhere(func(s *px.Sym) bool { return isParam(s, beginP) })
 	isBody := px.DynWhere(func(s *px.Sym) bool { return isParam(s, bodyP) })
-	// Commit / Rollback are database/sql's: (*sql.Tx).Commit / Rollback, reached directly or through the promoted methods
-	// of a struct embedding *sql.Tx. A method of go-zero that shadows them (a session type growing its own Commit) is
-	// not trusted to commit: it is analysed in place, and what counts is the sql.Tx call it makes on each of its paths.
-	sqlMethod := func(name string) px.Pred {
-		return func(e *px.Event) bool {
-			if e.Kind != px.EvCall || e.Call == nil || e.Inlined {
-				return false
-			}
-			o := e.Call.Obj()
-			return o != nil && o.Name() == name && o.Pkg() != nil && o.Pkg().Path() == "database/sql"
-		}
-	}
-	commit := sqlMethod("Commit")
-	rollback := sqlMethod("Rollback")
-	shadow := func(ci *px.CallInfo, d int) bool {
-		if ci.Static == nil || ci.Static.Synthetic != "" || ci.Static.Blocks == nil {
-			return false
-		}
-		o := ci.Obj()
-		return o != nil && (o.Name() == "Commit" || o.Name() == "Rollback") && o.Pkg() != nil && strings.HasPrefix(o.Pkg().Path(), mod)
-	}
+	commit := methodNamed("Commit")
+	rollback := methodNamed("Rollback")
 	// the body has three ways out: it returns, it panics, or it ends the goroutine (runtime.Goexit — what
 	// t.FailNow/t.Fatal do inside a body): on the last one the deferred calls run and recover() sees nil
-	ps := c.paths("C14.R1", f, px.Config{Inline: shadow, MayPanic: func(ci *px.CallInfo) bool { return ci.IsDyn() },
+	ps := c.paths("C14.R1", f, px.Config{MayPanic: func(ci *px.CallInfo) bool { return ci.IsDyn() },
 		MayGoexit: func(ci *px.CallInfo) bool {
 			return ci.IsDyn() && ci.FnSym != nil && isParam(ci.FnSym, bodyP)
 		}})
